@@ -3,6 +3,7 @@
 //! Command line: see simcore::cli.
 
 mod common;
+mod history;
 mod mirror;
 mod nogood;
 
@@ -12,6 +13,9 @@ fn lookup(scenario: &str, property: &str) -> Option<Box<dyn Dyn>> {
     match (scenario, property) {
         ("mirror", "C19") => Some(Box::new(mirror::Mirror { property: "C19" })),
         ("nogood", "C05") => Some(Box::new(nogood::Nogood)),
+        ("history", "C11") => Some(Box::new(history::History { property: "C11" })),
+        ("history", "C14") => Some(Box::new(history::History { property: "C14" })),
+        ("history", "C06") => Some(Box::new(history::History { property: "C06" })),
         ("mirror", "C06") => Some(Box::new(mirror::Mirror { property: "C06" })),
         _ => None,
     }
